@@ -10,7 +10,7 @@
 
    The judgement is that of PlotWrap.tla: InTrack and Unwrap for every sample, every point in the track, in the step's x
    interval and in the plot's x range, a bounded number of points per step, no plain point for an off-scale wrap,
-   nothing at all while the curve stays off scale on one side, nothing drawn for or across absent samples.  A rejected trace deadlocks at (tid, l). *)
+   nothing drawn for or across absent samples.  A rejected trace deadlocks at (tid, l). *)
 EXTENDS Integers, Sequences, FiniteSets, TLC, Json, IOUtils
 
 CONSTANTS Tol,          \* quantisation tolerance (position units)
@@ -60,8 +60,8 @@ SampleEv == /\ More /\ Ev.op = "sample" /\ "LP" \in DOMAIN g
                        ELSE \A k \in 1..Len(Ev.pts) : Abs(Ev.pts[k].x - Ev.x) > 1
                     \* nothing is drawn across absent samples
                     /\ gap => Len(Ev.pts) <= 1
-                    \* a curve that stays off scale on one side draws nothing (no edge, crossing or incoming lines)
-                    /\ (havePrev /\ OffScale(wPrev) # 0 /\ OffScale(wPrev) = OffScale(Ev.w)) => Ev.pts = <<>>
+                    \* (as coded a curve that stays off scale on one side draws nothing at all; the property only asks that what IS
+                    \*  drawn lies in the track, so a writer that also draws edge or crossing lines there is not rejected)
                     /\ wPrev' = Ev.w
                     /\ havePrev' = TRUE
             /\ xPrev' = Ev.x /\ gap' = FALSE
